@@ -22,6 +22,7 @@ Directive grammar (one per line, leading blanks allowed):
   //@atend               ghost text inserted right before the tail expression of the body
   //@afterloop N         ghost text inserted right after the closing brace of the N-th loop
   //@loopstart N / //@loopend N   ghost text at the beginning / end of the body of the N-th loop
+  //@beforeloop N        ghost text on the line before the N-th loop
   //@tail NAME           the tail expression E becomes `let NAME = E; <ghost text> NAME` (R16)
   //@replace "old" => "new" :: reason      function-specific rewrite (logged as F)
   //@replaceall "old" => "new" :: reason   the same for every occurrence
@@ -493,7 +494,7 @@ class Unit:
                     ent = dict(where='atend', anchor=None, nth=0, lines=[])
                     spec['hints'].append(ent)
                     cur = ent['lines']
-                elif kw in ('loopstart', 'loopend'):
+                elif kw in ('loopstart', 'loopend', 'beforeloop'):
                     # //@loopstart N / //@loopend N: ghost text at the beginning / the end of the body of the N-th loop (positional:
                     # independent of the statements in the body)
                     ent = dict(where=kw, anchor=None, nth=int(rest.strip()), lines=[])
@@ -1090,11 +1091,15 @@ class Unit:
                 else:
                     edits.append((at, at, '\n' + '\n'.join(h['lines']) + '\n', None))
                 continue
-            if h['where'] in ('loopstart', 'loopend'):
+            if h['where'] in ('loopstart', 'loopend', 'beforeloop'):
                 if h['nth'] < 1 or h['nth'] > len(loops):
                     self.lost_anchors.append('%s: %s %d: function has %d loops' % (path, h['where'], h['nth'], len(loops)))
                     continue
                 ob_ = loops[h['nth'] - 1][2]
+                if h['where'] == 'beforeloop':
+                    ls_ = sn.line_start(loops[h['nth'] - 1][0])
+                    edits.append((ls_, ls_, '\n'.join(h['lines']) + '\n', None))
+                    continue
                 if h['where'] == 'loopstart':
                     nl_ = body.find('\n', ob_)
                     edits.append((nl_ + 1, nl_ + 1, '\n'.join(h['lines']) + '\n', None))
